@@ -104,12 +104,14 @@ func (obj HashTable) LoadForm() Object {
 		List{List{tsym, List{Symbol("make-hash-table")}}},
 	}
 	for k, v := range obj {
+		key := k
 		switch k.(type) {
-		case Symbol:
-			form = append(form, List{Symbol("setf"), List{Symbol("gethash"), List{quoteSymbol, k}, tsym}, elementLoadForm(v)})
 		case String, Number, nil:
-			form = append(form, List{Symbol("setf"), List{Symbol("gethash"), k, tsym}, elementLoadForm(v)})
+			// evaluates to itself
+		default:
+			key = elementLoadForm(k)
 		}
+		form = append(form, List{Symbol("setf"), List{Symbol("gethash"), key, tsym}, elementLoadForm(v)})
 	}
 	form = append(form, Symbol("table"))
 
